@@ -126,19 +126,21 @@ def oracle(p):
         gen = torch.Generator().manual_seed(rng.randrange(10 ** 6))
         v, v2, u = (torch.rand((1, D) + shape, dtype=torch.float64, generator=gen) - 0.5 for _ in range(3))
         a, b = rng.uniform(-2, 2), rng.uniform(-2, 2)
-        case = {"D": D, "shape": list(shape), "mode": mode, "sigma": sigma}
-        lb = lambda x, y: FL.lie_bracket(x, y, mode=mode, sigma=sigma)
+        spacing = [None, 0.5, tuple(rng.choice([0.25, 0.5, 1.5]) for _ in range(D))][(it // len(modes)) % 3 if it >= len(modes) else rng.randrange(3)]
+        stride = rng.choice([None, None, 2])          # only read by mode='bspline'; must not leak into the other options
+        case = {"D": D, "shape": list(shape), "mode": mode, "sigma": sigma, "spacing": spacing, "stride": stride}
+        lb = lambda x, y: FL.lie_bracket(x, y, mode=mode, sigma=sigma, spacing=spacing, stride=stride)
         try:
-            count(f"lie:{mode}:sigma={sigma}")
+            count(f"lie:{mode}:sigma={sigma}:spacing={'none' if spacing is None else ('scalar' if isinstance(spacing, float) else 'per-axis')}")
             l1 = float((lb(a * v + b * v2, u) - (a * lb(v, u) + b * lb(v2, u))).abs().max())
             l2 = float((lb(u, a * v + b * v2) - (a * lb(u, v) + b * lb(u, v2))).abs().max())
             an = float((lb(v, u) + lb(u, v)).abs().max())
             sf = float(lb(v, v).abs().max())
             sc = float(lb(v, u).abs().max())
             if not max(l1, l2) <= 1e-9 * (1 + sc):
-                fail(f"C13:lie_bracket:bilinear:mode={mode}", f"lie_bracket is not bilinear: deviations {l1:.3g}, {l2:.3g} (shape {shape}, sigma={sigma})", case)
+                fail(f"C13:lie_bracket:bilinear:mode={mode}", f"lie_bracket is not bilinear: deviations {l1:.3g}, {l2:.3g} (shape {shape}, sigma={sigma}, spacing={spacing}, stride={stride})", case)
             if not max(an, sf) <= 1e-9 * (1 + sc):
-                fail(f"C13:lie_bracket:antisymmetric:mode={mode}", f"[v,u] + [u,v] = {an:.3g}, [v,v] = {sf:.3g} (shape {shape}, sigma={sigma})", case)
+                fail(f"C13:lie_bracket:antisymmetric:mode={mode}", f"[v,u] + [u,v] = {an:.3g}, [v,v] = {sf:.3g} (shape {shape}, sigma={sigma}, spacing={spacing}, stride={stride})", case)
         except Exception as e:  # noqa
             fail(f"C13:lie_bracket:raises:mode={mode}", f"lie_bracket raised {type(e).__name__}: {e}", case)
         # analytic value on affine fields (cube-corner coordinates = default spacing of the derivatives), exact stencil
@@ -160,6 +162,16 @@ def oracle(p):
             count("lie:affine-value")
             if not d <= 1e-6:   # the default spacing 2 / (n - 1) is a float32 tensor
                 fail("C13:lie_bracket:affine-value", f"lie_bracket of two affine fields differs from Jv u - Ju v by {d:.3g} (shape {shape})", case)
+            # fields sampled at align_corners=False coordinates: the caller has to say that samples are 2/n apart
+            vb = torch.tensor(B.tofloat([disp_field(A, shape, False)]), dtype=torch.float64)
+            ub = torch.tensor(B.tofloat([disp_field(Bm, shape, False)]), dtype=torch.float64)
+            sp = tuple(2.0 / n_ for n_ in reversed(shape))
+            w = FL.lie_bracket(vb, ub, mode="forward_central_backward", spacing=sp)
+            d = B.maxdiff(w, [B.field_of(br, shape, False)])
+            count("lie:affine-value:explicit-spacing")
+            if not d <= 1e-6:
+                fail("C13:lie_bracket:affine-value:explicit-spacing",
+                     f"lie_bracket(spacing=2/n) of two affine fields on align_corners=False coordinates differs from Jv u - Ju v by {d:.3g} (shape {shape})", case)
 
     # ---- compose_svfs ----
     for it in range(max(12, n // 2)):
@@ -169,11 +181,18 @@ def oracle(p):
         mode = rng.choice([None, "forward_central_backward", "sobel"])
         gen = torch.Generator().manual_seed(rng.randrange(10 ** 6))
         v, u = (torch.rand((1, D) + shape, dtype=torch.float64, generator=gen) - 0.5 for _ in range(2))
-        case = {"D": D, "shape": list(shape), "bch_terms": terms, "mode": mode}
-        lb = lambda x, y: FL.lie_bracket(x, y, mode=mode)
+        spacing = rng.choice([None, 0.5, tuple(rng.choice([0.25, 0.5, 1.5]) for _ in range(D))])
+        sigma = rng.choice([None, None, 1.0])
+        case = {"D": D, "shape": list(shape), "bch_terms": terms, "mode": mode, "spacing": spacing, "sigma": sigma}
+        lb = lambda x, y: FL.lie_bracket(x, y, mode=mode, spacing=spacing, sigma=sigma)
         try:
             count(f"bch-series:{terms}")
-            w = FL.compose_svfs(u, v, bch_terms=terms, mode=mode)
+            w = FL.compose_svfs(u, v, bch_terms=terms, mode=mode, spacing=spacing, sigma=sigma)
+            w2 = FL.compose_svfs(v, v, bch_terms=terms, mode=mode, spacing=spacing, sigma=sigma)
+            d2 = float((w2 - 2 * v).abs().max())
+            if not d2 <= 1e-9 * (1 + float(v.abs().max())):
+                fail(f"C13:compose_svfs:self:bch_terms={terms}",
+                     f"compose_svfs(a, a, bch_terms={terms}, mode={mode}, spacing={spacing}, sigma={sigma}) differs from 2a by {d2:.3g}", case)
             vu = lb(v, u)
             nested = {"vu": vu, "vvu": lb(v, vu), "uvu": lb(u, vu)}
             nested["uvvu"] = lb(u, nested["vvu"])
@@ -197,7 +216,7 @@ def oracle(p):
                 cv = x * torch.tensor([rng.uniform(-1, 1) for _ in range(D)]).reshape((1, D) + (1,) * D)
             mm = mode if kind != "diagonal" else "forward_central_backward"
             count(f"bch-commuting:{kind}")
-            wc = FL.compose_svfs(cu, cv, bch_terms=terms, mode=mm)
+            wc = FL.compose_svfs(cu, cv, bch_terms=terms, mode=mm, spacing=spacing)
             d = float((wc - (cv + cu)).abs().max())
             if not d <= 1e-9 * (1 + float((cv + cu).abs().max())):
                 fail(f"C13:compose_svfs:commuting:bch_terms={terms}",
@@ -226,7 +245,10 @@ def oracle(p):
             w = FL.compose_svfs(u, v, bch_terms=terms, mode="forward_central_backward")
             errs.append(float((FL.expv(w, steps=6, align_corners=ac) - target).abs().max()) * nn / 2)
         count("bch-error-by-order")
-        if not all(e <= errs[0] * 1.05 + 1e-9 for e in errs):
+        # criterion (documented in the evidence): no truncation order is worse than the zeroth order v + u (5% numerical slack) and the
+        # first bracket helps; strict monotonicity is NOT required -- on the unchanged tree the error rises by up to ~20% from
+        # bch_terms=1 to 2 because every further bracket adds O(h^2) finite-difference error at the discretisation floor
+        if not (all(e <= errs[0] * 1.05 + 1e-9 for e in errs) and errs[1] <= errs[0]):
             fail("C13:compose_svfs:bch-error-growth", f"error of exp(BCH_t(u, v)) against exp(v) o exp(u) in samples per order: {errs}",
                  {"D": D, "ac": ac})
     for it in range(max(2, n // 30)):
@@ -244,6 +266,12 @@ def oracle(p):
             if not res[ac] <= 0.2 * amp:
                 fail(f"C13:logv:roundtrip:align_corners={ac}",
                      f"logv(expv(v)) differs from v by {res[ac]:.3g} samples for an amplitude of {amp:.3g} samples (D={D}, n={nn})", {"D": D})
+            w0 = FL.logv(flow, num_iters=5, bch_terms=1, sigma=None, exp_steps=0, align_corners=ac)
+            r0 = float((w0 - v).abs().max()) * nn / 2
+            count("logv-roundtrip:exp_steps=0")
+            if not r0 <= 0.35 * amp:
+                fail(f"C13:logv:roundtrip:exp_steps=0:align_corners={ac}",
+                     f"logv(expv(v), exp_steps=0) differs from v by {r0:.3g} samples for an amplitude of {amp:.3g} samples (D={D}, n={nn})", {"D": D})
         if not max(res.values()) <= 3 * min(res.values()) + 1e-6:
             fail("C13:logv:roundtrip:convention-dependent", f"logv(expv(v)) error depends on align_corners: {res}", {"D": D})
 
@@ -256,12 +284,15 @@ def oracle(p):
             v = torch.stack([-0.4 * x[a] + 0.1 * x[(a + 1) % D] for a in range(D)]).unsqueeze(0)
             flow = FL.expv(v, steps=6, align_corners=ac)
             iters = rng.choice([1, 3])
-            w = FL.logv(flow, num_iters=iters, bch_terms=0, sigma=None, exp_steps=6, align_corners=ac)
+            es = rng.choice([6, 0, 0])             # exp_steps = 0: exp(-v) is approximated by -v
+            sp = rng.choice([None, 0.5, tuple(2.0 / nn for _ in range(D))])
+            bt = rng.choice([0, 1])
+            w = FL.logv(flow, num_iters=iters, bch_terms=bt, sigma=None, spacing=sp, exp_steps=es, align_corners=ac)
             vv = flow
             for _ in range(iters):
-                uu = FL.expv(vv, steps=6, align_corners=ac, inverse=True)
+                uu = FL.expv(-vv, steps=es, align_corners=ac)           # exp(-v) through the negated field, not the inverse flag
                 uu = FL.compose_flows(flow, uu, align_corners=ac)
-                vv = FL.compose_svfs(uu, vv, bch_terms=0, sigma=None)
+                vv = FL.compose_svfs(uu, vv, bch_terms=bt, sigma=None, spacing=sp)
             count("logv-flag")
             # batches: item by item
             fb = torch.cat([flow, flow * 0.5, -flow])
@@ -275,10 +306,12 @@ def oracle(p):
                 fail("C13:logv:batch:raises", f"logv on a batch of 3 flow fields raises {type(e).__name__}: {str(e)[:120]}", {"D": D, "n": nn, "ac": ac})
             d = float((w - vv).abs().max())
             if not d <= 1e-12:
-                fail("C13:logv:align_corners-not-forwarded",
-                     f"logv(flow, align_corners={ac}) differs by {d:.3g} (field amplitude {float(v.abs().max()):.2g}, {nn}^{D} grid) from the "
-                     f"same iteration with compose_flows(flow, u, align_corners={ac}): logv composes in the default convention",
-                     {"D": D, "n": nn, "ac": ac, "num_iters": iters})
+                key = "C13:logv:align_corners-not-forwarded" if es > 0 else "C13:logv:exp_steps=0:differs-from-iteration"
+                fail(key,
+                     f"logv(flow, num_iters={iters}, bch_terms={bt}, spacing={sp}, exp_steps={es}, align_corners={ac}) differs by {d:.3g} (field "
+                     f"amplitude {float(v.abs().max()):.2g}, {nn}^{D} grid) from the iteration v <- BCH(flow o exp(-v), v) assembled from expv(-v), "
+                     f"compose_flows(., ., align_corners={ac}) and compose_svfs with the same options",
+                     {"D": D, "n": nn, "ac": ac, "num_iters": iters, "exp_steps": es, "spacing": sp, "bch_terms": bt})
     return {"fails": fails, "counts": counts}
 
 
